@@ -38,6 +38,15 @@ def run_on_crate(chk, crate, label=""):
 
 def run(ctx, chk):
     n, ntag = run_on_crate(chk, ctx.crate("zvt"))
+    # "an unknown tag stops decoding and the result is the value of the bytes before it": what a nested container did not read
+    # must come back to the enclosing loop as remainder - the generic framing step keeps the field's bounded view and hands
+    # back `&payload[length - unread..]` (clauses shared with C14-a/b)
+    import rules_c14
+    from report import Sub
+    if not isinstance(chk, Sub):
+        sub = Sub(chk, "C13-d", lambda r: r in ("C14-a/bounded-view", "C14-b/remainder"))
+        rules_c14.framing(sub, [ctx.crate("zvt_builder"), ctx.crate("zvt")])
+        chk.floor("framing obligations (shared with C14-a/b)", sub.count, 2)
     chk.analysed["shipped_struct_decoders"] = n
     chk.analysed["tagged_rows"] = ntag
     chk.floor("struct decoders analysed", n, 55)
